@@ -249,8 +249,10 @@ def check(ctx, facts, cfg):
                           site=adt['span'], fn=adt_p, cfg=cfg)
         else:
             ctx.ok('C17.d-results-borrow', '%s@%s' % (adt_p, cfg), {'fields': [(fl['name'], fl['ty']) for v in adt['variants'] for fl in v['fields']]})
+    from . import roles as roles_mod
+    RL = roles_mod.roles(facts)
     for p in ('encoder_result::EncoderResult::<\'_>::recovery', 'decoder_result::DecoderResult::<\'_>::restored_original',
-              'rate::encoder_work::EncoderWork::recovery', 'rate::decoder_work::DecoderWork::restored_original'):
+              RL.fn.get('enc.accessor') or 'enc.accessor', RL.fn.get('dec.accessor') or 'dec.accessor'):
         f = ctx.anchor(facts, p, 'C17.d-results-borrow')
         if f is None:
             continue
